@@ -13,7 +13,14 @@ LEAN_MODULES = ['Proofs.C07']
 REQUIRED = ['C07.pool_map_schedule_indep', 'C07.getNextImfMask_spec', 'C07.getNextImfMask_flag',
             'C07.getNextImfMask_schedule_indep', 'C07.getNextImfMask_zero_amp',
             'C07.maskFreqs_ladder', 'C07.maskFreqs_user_list', 'C07.maskAmp_modes',
-            'C07.maskSift_peel', 'C07.maskSift_returns_used_freqs', 'C07.maskSift_schedule_indep']
+            'C07.maskSift_peel', 'C07.maskSift_returns_used_freqs', 'C07.maskSift_schedule_indep',
+            # cross-model consistency with the Sift model's mask_sift loop (C03)
+            'C07.maskSift_agrees_with_sift_model', 'C07.maskSift_iff_sift_model', 'C07.maskSift_cap_nested',
+            'C07.maskSift_cols_le_cap_sift_model', 'C07.maskSift_col_eq_extract_sift_model',
+            # composition with get_next_imf of the Sift model (C04) / envelopes of the Extrema model (C05)
+            'C07.getNextImfMask_over_getNextImf_spec', 'C07.getNextImfMask_over_getNextImf_fixed',
+            'C07.getNextImfMask_over_getNextImf_zero_amp', 'C07.getNextImfMask_pipeline_zero_amp',
+            'C07.getNextImfMask_over_getNextImf_flag']
 TRUSTED = [
     'oracle: single-IMF extraction X = the real emd.sift.get_next_imf, tabulated on the masked signals of the same run '
     '(looked up by argument within 1e-9)',
